@@ -30,7 +30,7 @@ RULE = ("templates rendered from a random item tree: text / ## comments / <%doc>
         "nesting depth <= 3; calls _(m), gettext(m), ngettext(s, p, n) with unique messages at random places; "
         "translator-comment blocks (1-3 ## lines, configured tag) at distance 0/1/2 lines, separated by text or by a "
         "message-less construct, followed by untagged ## lines; LF/CRLF; str input and bytes in utf-8 / latin-1 / "
-        "cp1251 / koi8-r with option and/or coding comment, incl. comment and option naming different codecs (the comment wins); a case is non-trivial when >= 1 planted call is present; distinct "
+        "cp1251 / koi8-r with option and/or coding comment, incl. comment and option naming different codecs (the comment wins) and the codec given as input_encoding only; a case is non-trivial when >= 1 planted call is present; distinct "
         "= distinct rendered sources x flavour")
 ASSUMPTIONS = [
     "the Python-level call finders (babel.messages.extract.extract_python, lingua.extractors.python) are oracles: "
@@ -750,6 +750,7 @@ class Impl:
         if record is not None:
             def rec(fileobj, keywords, comment_tags, opts):
                 record.append(fileobj.getvalue())
+                self.last_finder_options = dict(opts)     # how the implementation configures the finder
                 return orig(fileobj, keywords, comment_tags, opts)
             bp.extract_python = rec
         try:
@@ -794,12 +795,16 @@ class Impl:
         return res, rec
 
     # ---- the finders as oracles for the model
-    def babel_finder(self, code, tags, options):
+    def babel_finder(self, code, tags, options, finder_options=None):
+        """the finder as an oracle: `finder_options` are the options the implementation was seen to pass to
+        extract_python for this template (the codec hand-off is the implementation's business, the oracle stream
+        judges its effect)"""
         encoding = options.get("input_encoding", options.get("encoding", None)) or "ascii"
         data = code.encode(encoding, "backslashreplace")
         try:
             return [(l, fn, repr(msgs), list(cm)) for l, fn, msgs, cm in
-                    self.extract_python(io.BytesIO(data), KEYWORDS, " ".join(tags), dict(options))]
+                    self.extract_python(io.BytesIO(data), KEYWORDS, " ".join(tags),
+                                        dict(finder_options if finder_options is not None else options))]
         except Exception as e:
             return ("EXC", type(e).__name__)
 
@@ -929,7 +934,9 @@ def make_case(rng, wild, size):
                            "coding:latin-1", "both:utf-8", "both:cp1251",
                            # magic comment and configured encoding DISAGREE (bytes input): the comment wins
                            "conflict:cp1251:utf-8", "conflict:latin-1:utf-8", "conflict:koi8-r:latin-1",
-                           "conflict:utf-8:latin-1", "conflict:cp1251:latin-1", "conflict:utf-8:cp1251"])
+                           "conflict:utf-8:latin-1", "conflict:cp1251:latin-1", "conflict:utf-8:cp1251",
+                           # the codec is configured with the documented `input_encoding` option only
+                           "inopt:latin-1", "inopt:cp1251", "inopt:utf-8"])
     encoding = "utf-8" if enc_mode == "str" else enc_mode.split(":")[1]
     charset = ENC_CHARS[encoding] if rng.random() < (0.95 if enc_mode.startswith("conflict") else 0.8) else ""
     tagsets = [["TR:"], ["TRANSLATORS:", "NOTE:"], ["TR:", "L10N"]]
@@ -961,6 +968,8 @@ def render_case(case):
             prefix = "## -*- coding: %s -*-\n" % encoding
         if kind in ("opt", "both"):
             options = {"encoding": encoding}
+        if kind == "inopt":
+            options = {"input_encoding": encoding}
         if kind == "conflict":       # the file is written in the codec of its magic comment; the option names another
             options = {"encoding": mode.split(":")[2]}
     if prefix:
@@ -1194,6 +1203,19 @@ def oracle_case(impl, flavor, case, refine=True):
     reduced to the longest): when the mismatch on that message disappears the feature removed is its cause."""
     rd, text, truth, info, res = run_flavor_real(impl, flavor, case)
     bad = check_results(flavor, res, truth, info, rd, case["tags"])
+    if refine and flavor == "babel" and case.get("enc_mode", "").startswith("inopt:") and bad:
+        # same template with the codec given as `encoding` instead of `input_encoding`: what disappears is due to
+        # the option not reaching Babel's own decoding
+        v = dict(case)
+        v["enc_mode"] = "opt:" + case["enc_mode"].split(":")[1]
+        try:
+            bad_v, _ = oracle_case(impl, flavor, v, refine=False)
+            keep = {(s_, d_) for s_, d_ in bad_v}
+        except Exception:
+            keep = None
+        if keep is not None:
+            bad = [b if (b[0], b[1]) in keep else ("babel-input-encoding-option-only", b[1] + "  [options = {'input_encoding': %r}; fine with {'encoding': ...}]" % case["enc_mode"].split(":")[1]) + tuple(b[2:])
+                   for b in bad]
     out = []
     for b in bad:
         site, detail = b[0], b[1]
@@ -1409,20 +1431,23 @@ def corr(ctx, impl, cases):
     work = []
     for case in cases:
         rd, text, data, options = render_case(case)
-        encoding = options.get("encoding")
+        encoding = options.get("input_encoding", options.get("encoding"))   # BabelMakoExtractor.__init__
         for flavor in ("babel", "lingua"):
             if flavor == "babel":
                 tree = impl.tree(data, encoding)
                 rec = []
+                impl.last_finder_options = None
                 real = canon_babel(impl.babel(data, case["tags"], options, rec))
+                fopts = impl.last_finder_options
                 cfg = None
             else:
                 tree = impl.tree(text, "utf-8")
                 cfg = ("  ".join(case["tags"]) + "\t") if case.get("cfg_ws") else " ".join(case["tags"])
+                fopts = None
                 real, rec = impl.lingua_recorded(text, cfg)
                 real = canon_lingua(real)
             work.append({"case": case, "flavor": flavor, "tree": tree, "real": real, "rec": rec, "cfg": cfg,
-                         "options": options, "text": text, "ncalls": len(rd.calls)})
+                         "options": options, "fopts": fopts, "text": text, "ncalls": len(rd.calls)})
     # phase 1: which strings does the model hand to the finder?
     reqs, idx = [], []
     for i, w in enumerate(work):
@@ -1452,7 +1477,7 @@ def corr(ctx, impl, cases):
         sth[f]["cases"] += 1
         model_handed = [c for _, c in w["codes"]]
         if f == "babel":
-            encoding = w["options"].get("encoding") or "ascii"
+            encoding = w["options"].get("input_encoding", w["options"].get("encoding")) or "ascii"
             model_cmp = [c.encode(encoding, "backslashreplace") for c in model_handed]
         else:
             model_cmp = model_handed
@@ -1463,7 +1488,7 @@ def corr(ctx, impl, cases):
             if c in seen:
                 continue
             seen.add(c)
-            hits = impl.babel_finder(c, w["case"]["tags"], w["options"]) if f == "babel" else impl.lingua_finder(c)
+            hits = impl.babel_finder(c, w["case"]["tags"], w["options"], w["fopts"]) if f == "babel" else impl.lingua_finder(c)
             if isinstance(hits, tuple):
                 exc = hits
                 break
